@@ -32,12 +32,22 @@ inductive MVStep where
   | setObjs (names : List Str)
   /-- `K.description = d` -/
   | setDescr (d : Option Str)
+  /-- `K.attribute_names = names` (a list): since the repair 94822bb the setter also renames the pattern
+      structures (`ps._name = name`, pairwise) and rebuilds `_pattern_types` -/
+  | setAttrs (names : List Str)
+
+/-- `for ps, name in zip(pattern_structures, value): ps._name = name` -/
+def renameCols : List PCol → List Str → List PCol
+  | c :: cs, n :: ns => { c with name := n } :: renameCols cs ns
+  | cs, _ => cs
 
 def MVCxt.step (K : MVCxt) : MVStep → MVCxt
   | .setCol j col => { K with cols := modCol (fun c => { c with data := col }) j K.cols }
   | .setCell j i v => { K with cols := modCol (fun c => { c with data := c.data.set i v }) j K.cols }
   | .setObjs ns => { K with objs := ns }
   | .setDescr d => { K with descr := d }
+  | .setAttrs ns =>
+    { K with attrs := ns, cols := if K.cols.length = ns.length then renameCols K.cols ns else K.cols }
 
 /-- what the setters assert / what the caller owes: a new column has the old length and holds descriptions of
     the column's class; names keep their number -/
@@ -47,6 +57,8 @@ def MVStepOk (K : MVCxt) : MVStep → Prop
   | .setCell j _ v => ∀ c, K.cols[j]? = some c → Fits c.ptype v ∧ v ≠ .none_
   | .setObjs ns => ns.length = K.objs.length
   | .setDescr _ => True
+  -- the setter asserts `len(value) == n_attributes`; distinct names are the caller's duty (as at construction)
+  | .setAttrs ns => ns.length = K.attrs.length ∧ ns.Nodup
 
 /-- the content after a history -/
 def MVCxt.run (K : MVCxt) (steps : List MVStep) : MVCxt := steps.foldl MVCxt.step K
@@ -88,6 +100,44 @@ theorem mem_of_getElem?_some {α : Type} (l : List α) (j : Nat) (x : α) (h : l
   obtain ⟨hj, rfl⟩ := List.getElem?_eq_some_iff.mp h
   exact List.getElem_mem hj
 
+theorem renameCols_map_name : ∀ (cs : List PCol) (ns : List Str), cs.length = ns.length →
+    (renameCols cs ns).map (·.name) = ns
+  | [], [], _ => rfl
+  | [], _ :: _, h => by simp at h
+  | _ :: _, [], h => by simp at h
+  | c :: cs, n :: ns, h => by
+    simp only [renameCols, List.map_cons]
+    rw [renameCols_map_name cs ns (by simpa using h)]
+
+/-- a renamed structure keeps class and column of an old one -/
+theorem mem_renameCols : ∀ (cs : List PCol) (ns : List Str) (c' : PCol), c' ∈ renameCols cs ns →
+    ∃ c ∈ cs, c'.ptype = c.ptype ∧ c'.data = c.data
+  | [], ns, c', h => by cases ns <;> simp [renameCols] at h
+  | c :: cs, [], c', h => ⟨c', by simpa [renameCols] using h, rfl, rfl⟩
+  | c :: cs, n :: ns, c', h => by
+    simp only [renameCols, List.mem_cons] at h
+    rcases h with rfl | h
+    · exact ⟨c, by simp, rfl, rfl⟩
+    · obtain ⟨c0, hc0, h1, h2⟩ := mem_renameCols cs ns c' h
+      exact ⟨c0, List.mem_cons_of_mem _ hc0, h1, h2⟩
+
+theorem renameCols_map_ptype : ∀ (cs : List PCol) (ns : List Str),
+    (renameCols cs ns).map (·.ptype) = cs.map (·.ptype)
+  | [], ns => by cases ns <;> rfl
+  | _ :: _, [] => rfl
+  | c :: cs, n :: ns => by simp [renameCols, renameCols_map_ptype cs ns]
+
+theorem renameCols_map_data : ∀ (cs : List PCol) (ns : List Str),
+    (renameCols cs ns).map (·.data) = cs.map (·.data)
+  | [], ns => by cases ns <;> rfl
+  | _ :: _, [] => rfl
+  | c :: cs, n :: ns => by simp [renameCols, renameCols_map_data cs ns]
+
+theorem renameCols_ne_nil (cs : List PCol) (ns : List Str) (h : cs ≠ []) : renameCols cs ns ≠ [] := by
+  cases cs with
+  | nil => exact absurd rfl h
+  | cons c cs => cases ns <;> simp [renameCols]
+
 /-- a legal step keeps the context well formed -/
 theorem mvok_step (K : MVCxt) (s : MVStep) (h : MVOk K) (hs : MVStepOk K s) : MVOk (K.step s) := by
   cases s with
@@ -127,6 +177,24 @@ theorem mvok_step (K : MVCxt) (s : MVStep) (h : MVOk K) (hs : MVStepOk K s) : MV
       show c.data.length = ns.length
       rw [hlen]; exact h.len c hc
   | setDescr d => exact ⟨h.names, h.nodup, h.objs_ne, h.cols_ne, h.len, h.fits⟩
+  | setAttrs ns =>
+    have hs' : ns.length = K.attrs.length ∧ ns.Nodup := hs
+    have hlen : K.cols.length = ns.length := by
+      have := congrArg List.length h.names
+      simp only [List.length_map] at this
+      rw [this, hs'.1]
+    have hstep : K.step (.setAttrs ns) = { K with attrs := ns, cols := renameCols K.cols ns } := by
+      simp only [MVCxt.step, if_pos hlen]
+    rw [hstep]
+    refine ⟨renameCols_map_name K.cols ns hlen, hs'.2, h.objs_ne, renameCols_ne_nil K.cols ns h.cols_ne, ?_, ?_⟩
+    · intro c' hc'
+      obtain ⟨c, hc, _, hd⟩ := mem_renameCols K.cols ns c' hc'
+      show c'.data.length = K.objs.length
+      rw [hd]; exact h.len c hc
+    · intro c' hc' v hv
+      obtain ⟨c, hc, ht, hd⟩ := mem_renameCols K.cols ns c' hc'
+      rw [ht]
+      exact h.fits c hc v (by rw [← hd]; exact hv)
 
 /-- … and so does a whole history -/
 theorem mvok_run : ∀ (steps : List MVStep) (K : MVCxt), MVOk K → MVStepsOk K steps → MVOk (K.run steps)
